@@ -72,6 +72,20 @@ PROPERTIES["C16"] = {
         K("c16_malformed_bin2", timeout=300),
         K("c16_malformed_bin3", tier="thorough", timeout=900),
         K("c16_nonhex_rejected", timeout=300),
+        K("c16_header_width_1", timeout=600, shared_covers=True),
+        K("c16_header_width_2", timeout=600, shared_covers=True),
+        K("c16_header_width_5", timeout=900, shared_covers=True),
+        K("c16_header_len_5", timeout=900, shared_covers=True),
+        K("c16_header_seed_5", timeout=900, shared_covers=True),
+        K("c16_header_total_bin4", timeout=900),
+        K("c16_header_width_10", timeout=900, shared_covers=True),
+        K("c16_header_len_10", timeout=900, shared_covers=True),
+        K("c16_header_seed_10", timeout=900, shared_covers=True),
+        K("c16_header_width_9", tier="thorough", timeout=1200, shared_covers=True),
+        K("c16_header_len_9", tier="thorough", timeout=1200, shared_covers=True),
+        K("c16_header_seed_9", tier="thorough", timeout=1200, shared_covers=True),
+        K("c16_header_total_bin6", tier="thorough", timeout=1800),
+        K("c16_header_total_bin12", tier="thorough", timeout=2400),
     ],
     "functions_encoded": [
         "shuttle_engine::scheduler::serialization::varint::{space_needed, WriteVarInt::write_u64_varint, "
@@ -81,14 +95,23 @@ PROPERTIES["C16"] = {
     ],
     "bounds_text": "varint kernels: every u64 (encode, length, decode, exact consumption), every byte string of "
     "length <= 11 (decoder total, <= 10 bytes read); decoder binary stage: every byte vector of length 0..=3 "
-    "after hex decoding (any version byte, any truncated or malformed header); unwind 12",
+    "after hex decoding (any version byte, any truncated or malformed header); header validation: magic byte, a task-id "
+    "header stage up to the entry of step decoding (BitSlice::from_slice stubbed to 'assert the "
+    "header is valid, end the path'): one header field (width / announced length / seed) a varint of exactly 1, 2, 5 or 10 bytes "
+    "(quick; 9 thorough) with every payload bit symbolic, the other fields single bytes: a header gets through exactly when its "
+    "width is 1..=64 and its varints are well-formed; every byte vector of length 4 (quick) / 6, 12 (thorough): rejected or "
+    "reaches step decoding, never a panic; unwind 12-14",
     "outside": "symbolic *strings* (str::chars/String::from_iter/hex on symbolic bytes exhaust 12 GB for 2 "
-    "characters): the third-party `hex` layer is an environment stub returning arbitrary bytes; byte vectors "
-    "longer than 3 with a fully symbolic header (symbolic Vec::with_capacity / bit-slice lengths exhaust 12 GB)",
+    "characters): the third-party `hex` layer is an environment stub returning arbitrary bytes; everything behind the "
+    "entry of step decoding (the `bitvec` crate: step decoding, the announced-length-versus-data check, the encoder's step "
+    "packing, whole-schedule round trips) exhausts 12 GB even for a header with no data and is cut off by a stub in the "
+    "header harnesses; the encoder's header",
     "rule": "",
     "assumptions": STANDARD_ASSUMPTIONS
     + ["hex::encode / hex::decode replaced by an environment stub: decode returns the harness's arbitrary byte "
-       "vector (or an error), i.e. the claim is over every byte vector hex decoding could produce"],
+       "vector (or an error), i.e. the claim is over every byte vector hex decoding could produce",
+       "c16_header_* only: bitvec::slice::BitSlice::from_slice replaced by a stub that asserts the harness's reference verdict "
+       "on the header and ends the path (kani::assume(false)): nothing behind it is part of those harnesses' claim"],
 }
 
 
@@ -97,6 +120,7 @@ VC = ("vector-clocks",)
 PROPERTIES["C15"] = {
     "level": "model_checking",
     "jobs": [
+        K("c15_laws_concrete_probes", features=VC, shared_covers=True, timeout=600),
         K("c15_laws_3_3", features=VC, shared_covers=True, timeout=600),
         K("c15_laws_2_3", features=VC, shared_covers=True, timeout=600),
         K("c15_laws_3_1", features=VC, shared_covers=True, timeout=600),
@@ -124,6 +148,9 @@ PROPERTIES["C09"] = {
         K("c09_dfs_depth2", timeout=900),
         K("c09_dfs_depth2_gap_ids", timeout=900),
         K("c09_dfs_depth2_maxiter", timeout=900),
+        K("c09_dfs_sym_root_22", timeout=900),
+        K("c09_dfs_2_sym_2", timeout=900),
+        K("c09_dfs_lit_222", timeout=900),
     ],
     "functions_encoded": [
         "shuttle_schedulers::dfs::DfsScheduler::{new, new_execution, next_task, next_u64, has_more_choices}",
@@ -200,20 +227,31 @@ PROPERTIES["C01"] = {
         K("c01_data_seed_reproduces_each_execution", module="kp", timeout=900),
         K("c01_nd_checker_record_then_replay", module="kp", timeout=900),
         K("c01_replay_refuses_missing_task", module="kp", timeout=900),
+        K("c01_recording_of_draws_0_1", module="kp", timeout=900),
+        K("c01_recording_of_draws_2_2", module="kp", timeout=900),
+        K("c01_recording_of_draws_1_0", module="kp", timeout=900),
         K("c01_replay_fidelity_4", module="kp", tier="thorough", timeout=2400),
     ],
     "functions_encoded": [
         "shuttle_schedulers::replay::ReplayScheduler::{new_from_schedule, new_execution, next_task, next_u64}",
         "shuttle_engine::scheduler::data::random::RandomDataSource::{initialize, reinitialize, next_u64}",
+        "shuttle_schedulers::uncontrolled_nondeterminism::UncontrolledNondeterminismCheckScheduler::{new, new_execution, next_task, next_u64}",
+        "shuttle_engine::runtime::execution::{ExecutionState::next_u64, CurrentSchedule::{init, push_random, get_schedule}}",
     ],
-    "bounds_text": "every recorded schedule of 3 steps over {Task(0), Task(1), Random} (27 schedules in one query), both tasks "
+    "bounds_text": "(thorough: 4 steps, 81 schedules) every recorded schedule of 3 steps over {Task(0), Task(1), Random} (27 schedules in one query), both tasks "
     "offered at every decision, `current` and `is_yielding` arbitrary; concrete data seed 11; unwind 6. Asserted: the task "
     "returned is exactly the recorded one, a Random marker is consumed by exactly one draw whose value is the seeded "
-    "stream's next value, replay performs exactly one execution and reports the recorded seed",
-    "outside": "recording side inside a running execution (ExecutionState::schedule/advance_to_next_task/next_u64: the "
+    "stream's next value, replay performs exactly one execution and reports the recorded seed; a recorded task that is not among the offered ones "
+    "(3 tasks, any one missing) is never replaced by another task; the data seed reported for the first, second and third "
+    "execution of a RandomDataSource (construction seeds 0, 0x12345678, u64::MAX) reproduces that execution's stream; the "
+    "nondeterminism checker accepts a replaying execution that repeats the recording one (2 decisions and a draw, symbolic answers); "
+    "the offered tasks are symbolically runnable or parked (blocked with spurious wake-ups allowed); recording of draws: inside an "
+    "entered ExecutionState, (recorded steps, draws) = (0,1), (1,0), (2,2), the recorded steps symbolically task steps or markers, any seed, any data values: each draw appends exactly one "
+    "Random marker in position, is served by exactly one call of the scheduler, earlier steps and the seed are untouched",
+    "outside": "recording of task steps inside a running execution (ExecutionState::schedule/advance_to_next_task: the "
     "engine-level harnesses exceed the solver's memory, DESIGN.md 2.1); schedules longer than 3 steps, more than 2 tasks, "
-    "offered lists that omit the recorded task (refusal path panics, not modelled); the string form (C16); "
-    "whole-program record->replay equality; the uncontrolled-nondeterminism checker",
+    "the string form (C16); whole-program record->replay equality; the uncontrolled-nondeterminism checker beyond one "
+    "recording and one replaying execution of 2 decisions and a draw",
     "rule": "",
 }
 
@@ -225,7 +263,7 @@ PROPERTIES["C05"] = {
     ],
     "functions_encoded": ["shuttle_engine::runtime::task::Task::{park, unpark, unblock, block, runnable, blocked, can_spuriously_wakeup}"],
     "bounds_text": "every sequence of 4 (quick) / 6 (thorough) operations over {park, unpark, spurious wake-up by the "
-    "scheduler, block on something else} on one task, op kind symbolic at every step; unwind 6/8",
+    "scheduler, block on something else, released by that something else} on one task, op kind symbolic at every step; unwind 6/8",
     "outside": "Condvar, Barrier and Once (their code runs inside an execution and exceeds the solver's memory, DESIGN.md 2.1); "
     "the std-level park()/unpark() wrappers in shuttle-std/src/thread.rs (they add the scheduling points around Task::park/unpark)",
     "rule": "",
@@ -239,7 +277,7 @@ PROPERTIES["C17"] = {
     ],
     "functions_encoded": ["shuttle_engine::runtime::task::Task::{sleep_unless_woken, wake (through abort), sleep, unblock, finish, abort}"],
     "bounds_text": "every sequence of 4 (quick) / 6 (thorough) operations over {executor puts the task to sleep after a Pending "
-    "poll, waker invoked, task finishes} on one task, op kind symbolic at every step; unwind 6/8",
+    "poll, waker invoked / abort requested (Task::abort), task finishes, task blocks on a primitive inside its poll, is released} on one task, op kind symbolic at every step; unwind 6/8",
     "outside": "the executor loop itself (Task::from_future), JoinHandle/Wrapper (result delivery, abort, detach), block_on: "
     "they run inside an execution with coroutines and exceed what the solver can encode (DESIGN.md 2.1)",
     "rule": "",
@@ -269,14 +307,22 @@ PROPERTIES["C08"] = {
     "level": "model_checking",
     "jobs": [K("c08_metrics_wrapper_transparent", module="kp", timeout=600),
              K("c01_nd_checker_record_then_replay", module="kp", timeout=900),
-             K("c08_annotation_wrapper_transparent", module="kp", timeout=900)],
-    "functions_encoded": ["shuttle_engine::scheduler::metrics::MetricsScheduler::{new, new_execution, next_task, next_u64, record_and_reset_metrics}"] + _DECISION_FUNCS,
-    "bounds_text": "MetricsScheduler around an inner scheduler with symbolic answers: task lists [t2] and [t0,t2], any `current`, "
-    "any is_yielding, any draw value, inner new_execution Some/None, across an execution boundary",
+             K("c08_annotation_wrapper_transparent", module="kp", timeout=900),
+             K("c08_portfolio_stop_wrapper", module="kp", timeout=900)],
+    "functions_encoded": [
+        "shuttle_engine::scheduler::metrics::MetricsScheduler::{new, new_execution, next_task, next_u64, record_and_reset_metrics}",
+        "shuttle_schedulers::annotation::AnnotationScheduler::{new, new_execution, next_task, next_u64} (feature `annotation` off)",
+        "shuttle_schedulers::uncontrolled_nondeterminism::UncontrolledNondeterminismCheckScheduler::{new, new_execution, next_task, next_u64}",
+        "shuttle_engine::runtime::runner::PortfolioStoppableScheduler::{new_execution, next_task, next_u64} (through hook verif_portfolio_stoppable)",
+    ],
+    "bounds_text": "each wrapper around an inner scheduler with symbolic answers: task lists [t2] and [t0,t2], any `current`, "
+    "any is_yielding, any draw value, inner new_execution Some/None, inner next_task Some(first)/Some(last)/None; metrics: across an "
+    "execution boundary; nondeterminism checker: one recording execution then one replaying execution of 2 decisions and a draw; "
+    "portfolio wrapper: stop flag raised before the execution, before the decision, or never (symbolic)",
     "outside": "the runtime side of the contract (what ExecutionState::schedule hands to the scheduler and which task then runs): "
     "the engine-level harness (kani/core/src/c03.rs, validated natively) does not finish symbolic execution in 30 min / "
-    "exhausts 50 GB in CBMC's propositional post-processing (DESIGN.md 2.1); annotation / portfolio-stop / "
-    "nondeterminism-check wrappers",
+    "exhausts 50 GB in CBMC's propositional post-processing (DESIGN.md 2.1); the annotation wrapper with feature "
+    "`annotation` on (JSON recording); longer call sequences through the wrappers",
     "rule": "",
 }
 
@@ -287,14 +333,22 @@ PROPERTIES["C13"] = {
         K("c13_budget_replay_once", module="kp", timeout=600),
         K("c13_step_bound_arith", module="kp", timeout=600),
         K("c13_budget_dfs_no_choices", module="kp", timeout=600),
+        K("c13_reset_then_bound", module="kp", timeout=900),
     ],
     "functions_encoded": ["shuttle_schedulers::round_robin::RoundRobinScheduler::{new, new_execution}",
-                          "shuttle_schedulers::replay::ReplayScheduler::new_execution"] + _DECISION_FUNCS,
-    "bounds_text": "iteration budgets 0..=3 (symbolic) of the round-robin scheduler and the single execution of the replay "
-    "scheduler: new_execution returns Some exactly budget times, then None forever (5 calls)",
-    "outside": "step-bound enforcement inside ExecutionState::schedule (engine-level harness kani/core/src/c03.rs: validated "
-    "natively, beyond the solver: DESIGN.md 2.1); budgets of the random / PCT / "
-    "DFS schedulers (env-var reads and unbounded rejection-sampling loops in `rand`); Runner::run's loop and count; max_time",
+                          "shuttle_schedulers::replay::ReplayScheduler::new_execution",
+                          "shuttle_schedulers::dfs::DfsScheduler::{new, new_execution, next_task} (choice-free body)",
+                          "shuttle_engine::runtime::execution::{ExecutionState::is_step_bound_exceeded, CurrentSchedule::{init, len}}",
+                          "shuttle_engine::current::reset_step_count"],
+    "bounds_text": "iteration budgets 0..=3 (symbolic) of the round-robin scheduler, the single execution of the replay "
+    "scheduler, DFS budgets None / Some(0..=3) on a body without choices: new_execution returns Some exactly budget times, then "
+    "None forever (5 calls); step-bound comparison: recorded schedule of 3 steps, reset point 0..=3, every usize bound; "
+    "reset_step_count (real function inside an entered ExecutionState) after 0..=3 recorded steps followed by 0..=3 further "
+    "steps, task steps and random draws alike, every usize bound: the bound trips exactly when the steps since the reset reach it",
+    "outside": "what ExecutionState::schedule does when the comparison trips (FailAfter message / ContinueAfter abandonment): "
+    "engine-level harness kani/core/src/c03.rs, validated natively, beyond the solver (DESIGN.md 2.1); budgets of the PCT and URW "
+    "schedulers (hashbrown / unbounded rejection-sampling loops in `rand`; the random scheduler's budget is asserted under C10); "
+    "Runner::run's loop and count; max_time",
     "rule": "",
 }
 del PROPERTIES["C03"]
@@ -318,7 +372,37 @@ PROPERTIES["C04"] = {
 }
 
 
+PROPERTIES["C10"] = {
+    "level": "model_checking",
+    "jobs": [
+        K("c10_random_seed_reproduces_2", module="kp", timeout=700),
+        K("c10_random_seed_reproduces_2_seed0", module="kp", tier="thorough", timeout=1500),
+        K("c10_random_seed_reproduces_2_seedmax", module="kp", tier="thorough", timeout=1500),
+        K("c10_probe_seed1", module="kp", tier="thorough", timeout=1500),
+        K("c10_probe_seedbeef", module="kp", tier="thorough", timeout=1500),
+    ],
+    "functions_encoded": [
+        "shuttle_schedulers::random::RandomScheduler::{new_from_seed, new_execution, next_task, next_u64}",
+        "shuttle_engine::scheduler::data::random::RandomDataSource::{initialize, reinitialize, next_u64}",
+        "rand::seq::SliceRandom::choose / rand::distributions::uniform::UniformInt::<u32>::sample_single (rejection loop, unwinding "
+        "assertion on), rand_pcg::Mcg128Xsl64::{seed_from_u64, next_u64}",
+    ],
+    "bounds_text": "construction seed concrete (0x12345678 quick; also 0, 1, 0xdeadbeef and u64::MAX thorough); 2 iterations; "
+    "in every iteration two operations, each symbolically a data draw or a decision among 1, 2 or 3 offered tasks; the iteration "
+    "to reproduce is symbolic; unwind 12 (rand 0.8's rejection loop rejects up to half of the draws by design: the unwinding "
+    "assertion proves that on every generator state reachable in the bound it exits within 11 rounds; with unwind 5 it passes for "
+    "0x12345678 only)",
+    "outside": "symbolic construction seeds (PCG's 128-bit multiply on a symbolic seed finishes only up to 8 seed bits); "
+    "uniformity / independence of the choice and eventual coverage of every schedule (probabilistic statements); the uniform "
+    "random walk scheduler (std HashMap: hashbrown probing is beyond the solver); SHUTTLE_RANDOM_SEED / "
+    "SHUTTLE_ALWAYS_PERSIST_SEED set in the environment (stubbed unset); more than two operations per iteration (three: 12 GB exhausted during symbolic execution)",
+    "rule": "",
+}
+
+
 # Engine-level instances whose Kani verdict is not stable (see DESIGN.md 2.1): kept in the crate for native
 # validation, not registered as checks.
-for _p in ("C18", "C04", "C09"):
-    PROPERTIES.pop(_p, None)
+import os as _os
+if not _os.environ.get("VERIF_EXPERIMENTAL"):
+    for _p in ("C18", "C04", "C09"):
+        PROPERTIES.pop(_p, None)
